@@ -29,6 +29,7 @@ func main() {
 	kind := flag.String("kind", "match", "case family")
 	seed := flag.Uint64("seed", 1, "seed")
 	n := flag.Int("n", 100, "number of cases")
+	profile := flag.String("profile", "general", "history profile")
 	flag.Parse()
 	out = bufio.NewWriterSize(os.Stdout, 1<<20)
 	defer out.Flush()
@@ -40,6 +41,8 @@ func main() {
 		genUpdateCases(r, *n)
 	case "num":
 		genNumCases(r, *n)
+	case "hist":
+		genHistCases(r, *n, *profile)
 	default:
 		fmt.Fprintln(os.Stderr, "unknown kind", *kind)
 		os.Exit(2)
